@@ -18,10 +18,18 @@ H, C, HI, G, HX, CX, TR, IG, UT, UP = (
     "ascmhl/chain_xml_parser.py", "ascmhl/traverse.py", "ascmhl/ignore.py", "ascmhl/utils.py", "ascmhl/cli/update.py",
 )
 
+def _os_path_exists(rel):
+    import os
+
+    return os.path.exists(os.path.join(os.path.dirname(os.path.abspath(__file__)), rel))
+
+
 # ------------------------------------------------------------------ seeds written by independent sub-agents (see seeded/*/meta.json)
 for _id in ("C01", "C02", "C03", "C04", "C05", "C06", "C07", "C08", "C09", "C10", "C11", "C12", "C13", "C14", "C15", "C16", "C17", "C18", "C19", "C20"):
     P(f"seed {_id}_a", _id, f"seeded/{_id}_a/patch.diff")
     P(f"seed {_id}_b (second round)", _id, f"seeded/{_id}_b/patch.diff")
+    if _os_path_exists(f"seeded/{_id}_c/patch.diff"):
+        P(f"seed {_id}_c (third round)", _id, f"seeded/{_id}_c/patch.diff")
 
 # ------------------------------------------------------------------ behaviour-preserving refactorings written by independent sub-agents
 # (refactors/r*/patch.diff, each passes the 79 tests): every check must stay silent (exit 0) on every one of them
@@ -504,3 +512,13 @@ V("discovery skips folders whose absolute path starts with a dot component", "C1
 V("discovery uses the last component of the walk root (harmless)", "C13", HI, """            if root != history_root and ascmhl_folder_name in directories:""", """            if root.split(os.sep)[-1] == "":
                 continue
             if root != history_root and ascmhl_folder_name in directories:""", "silent")
+
+V("loader accepts every name that contains the extension (temporaries parsed)", "C15", HI, """or not filename.endswith(ascmhl_file_extension):""", """or ascmhl_file_extension not in filename:""", "R15.4")
+V("loader drops the extension test", "C15", HI, """                if (len(filename) > 2 and filename[:2] == "._") or not filename.endswith(ascmhl_file_extension):
+                    continue""", """                if len(filename) > 2 and filename[:2] == "._":
+                    continue""", "R15.4")
+V("loader extension test as positive guard (equivalent)", ["C15", "C06", "C05"], HI, """                if (len(filename) > 2 and filename[:2] == "._") or not filename.endswith(ascmhl_file_extension):
+                    continue""", """                if not filename.endswith(ascmhl_file_extension):
+                    continue
+                if filename.startswith("._") and len(filename) > 2:
+                    continue""", "silent")
